@@ -89,6 +89,8 @@ def lib_entries(r):
     ent("BinaryCliqueFormula(K1,1)", lambda K: g.BinaryCliqueFormula(Graph(1), 1, formula_class=K), 0)
     ent("CPLSFormula(2,1,1)", lambda K: g.CPLSFormula(2, 1, 1, formula_class=K), 2)
     ent("CPLSFormula(2,2,1)", lambda K: g.CPLSFormula(2, 2, 1, formula_class=K), 4 + 4)
+    ent("PigeonholePrinciple(1200,1)", lambda K: g.PigeonholePrinciple(1200, 1, formula_class=K), 1200)
+    ent("PigeonholePrinciple(1,1100,functional)", lambda K: g.PigeonholePrinciple(1, 1100, functional=True, formula_class=K), 1100)
     ent("BinaryPigeonholePrinciple(1,2^20-3)", lambda K: g.BinaryPigeonholePrinciple(1, 2 ** 20 - 3, formula_class=K), 20)
     ent("BinaryPigeonholePrinciple(1,2^21-3)", lambda K: g.BinaryPigeonholePrinciple(1, 2 ** 21 - 3, formula_class=K), 21)
     ent("BinaryPigeonholePrinciple(1,70000)", lambda K: g.BinaryPigeonholePrinciple(1, 70000, formula_class=K), 17)
@@ -228,7 +230,7 @@ def offset_invariance(ctx, r, where, fn, K, F):
     clause on the first): the family's own variables come after them, so its constraints are those of the plain
     formula moved up by three, and the declared count grows by three."""
     from ..ducks import reserving_class
-    if len(F) > 60000 or where.startswith("handbuilt"):
+    if len(F) > 800000 or where.startswith("handbuilt"):
         return                      # (the hand-built entries set an absolute variable count themselves)
     seed = r.randint(0, 10 ** 6)
     random.seed(seed)
@@ -265,6 +267,22 @@ def offset_invariance(ctx, r, where, fn, K, F):
         ctx.violation("reserved:family-uses-the-callers-variables", "%s: constraint #%d is %r (moved down by 3), the plain formula has %r"
                       % (w, i, rest[i:i + 1], _body(F)[i:i + 1]))
     ctx.judged(("reserved", where), nontrivial=len(F) > 0, sample={"entry": w, "variables": B.number_of_variables()})
+    if hasattr(F, "_constraints"):
+        return
+    # ... and into a CNF class of the user's that keeps its clauses in a table of its own (add_clause and the accessors
+    # overridden): every clause of the family must arrive there
+    from ..ducks import table_class
+    random.seed(seed)
+    st, C = ctx.call(fn, table_class(K))
+    ctx.count("families_in_a_class_with_its_own_clause_table")
+    w = "%s with a CNF class that keeps its own clause table" % where
+    if st == "exc":
+        ctx.count("table_class_declined:%s" % type(C).__name__)
+        return
+    if C.number_of_variables() != F.number_of_variables() or _body(C) != _body(F):
+        ctx.violation("table-class:clauses-bypass-add_clause", "%s presents %d clauses over %d variables, the plain formula has %d over %d"
+                      % (w, len(C), C.number_of_variables(), len(F), F.number_of_variables()))
+    ctx.judged(("table-class", where), nontrivial=len(F) > 0, sample={"entry": w, "clauses": len(C)})
 
 
 def case_library(ctx, rseed, lo, hi):
@@ -698,7 +716,7 @@ def case_repo_tests(ctx):
 
 def workload(tier, seed):
     q = tier == "quick"
-    n = 60
+    n = 62
     for rs in range(1 if q else 10):
         for lo in range(0, n, 3):
             yield "library", {"rseed": seed * 100 + rs, "lo": lo, "hi": lo + 3}
